@@ -96,7 +96,7 @@ def run(case):
     out = Outcome()
     fs = SimFS()
     env.restore_registry()
-    env.bf3file.open = fs.open
+    env.use_fs(fs)
     bf = env.bec2file
     name = "dev.bec2"
     try:
